@@ -92,7 +92,7 @@ let eval (line : string) : string =
      | "MINOR", [m; r; c] -> show_opt show_mat "err_dim" (minor (nat r) (nat c) (mat_of m))
      | "SETCOL", [m; c; d] -> show_opt show_mat "err_dim" (set_column (nat c) (vec_of d) (mat_of m))
      | "LIFT", [m; g] -> "ok " ^ show_mat (lift mo (mat_of m) (z_of_hex g))
-     | "LACT", [a; x; g] -> show_opt show_mat "err_dim" (try_left_action k mo (mat_of a) (lift mo (mat_of x) (z_of_hex g)))
+     | "LACT", [a; x; g] -> show_opt show_mat "err_dim" (try_left_action mo (mat_of a) (lift mo (mat_of x) (z_of_hex g)))
      | "RACT", [x; a; g] -> show_opt show_mat "err_dim" (try_right_action k mo (lift mo (mat_of x) (z_of_hex g)) (mat_of a))
      | "EVAL", [c; x] -> "ok " ^ hex_of_z (peval k (vec_of c) (z_of_hex x))
      | "DEGREE", [c] -> (match pdegree k (vec_of c) with None -> "ok -1" | Some d -> Printf.sprintf "ok %d" (int_of_nat d))
